@@ -92,7 +92,25 @@ def rule_spine_panics(ctx):
     n += c15.audit_may_panic(ctx, bodies)
     ctx.check(True, "spine-sites-enumerated", "%d panic-capable site(s) enumerated over %d spine bodies" % (n, len(bodies)))
     ctx.floor("spine bodies", len(bodies), 3)
-    ctx.note("beyond-spine", "panic sites inside alpha_beta_start/alpha_beta/quiescence/get_pv/log_uci_info (ply-counter and depth arithmetic, moves[0], killers[depth], lock poisoning) need value reasoning and are not decided")
+    ctx.note("beyond-spine", "index sites of the tree walk are decided by C09.tree-index; its ply-counter and depth arithmetic and lock poisoning need value reasoning and are not decided")
+
+
+TREE = (C.ALPHA_BETA_START, C.ALPHA_BETA, C.QUIESCENCE, "search::Search::get_pv", "search::Search::store_killers", "search::Search::log_uci_info")
+
+
+def rule_tree_index(ctx):
+    """No index in the tree walk can be out of bounds: a panic anywhere below iter_deep kills the search thread before the
+    bestmove line (defect D11: `moves[0]` on the empty pseudo-legal list of a fully blocked side).  Every bounds check /
+    Index call in alpha_beta_start, alpha_beta, quiescence, get_pv, store_killers and log_uci_info is implied by a
+    dominating length test that is still valid, by a constant index into a longer array, or by the index being a u8
+    widened to usize into an array of 256."""
+    ix = ctx.ix
+    bodies = [ctx.body(k) for k in TREE]
+    for b in bodies:
+        ctx.functions.add(b.key)
+    n = c15.audit_index(ctx, bodies)
+    ctx.floor("index sites in the tree walk", n, 8)
+    ctx.note("tree-walk-other-panics", "lock poisoning (`expect` on the cache lock: only after another thread panicked while holding it), the consistency assert of get_pv (decided by C02) and the ply-counter / node-counter arithmetic are not decided")
 
 
 def rule_nonblocking(ctx):
@@ -297,7 +315,7 @@ def rule_depth_units(ctx):
     c14.rule_depth_units(ctx)
 
 
-RULES = [("one-site", rule_one_site), ("spine-panics", rule_spine_panics), ("poll", rule_poll), ("time-budget", rule_time_budget), ("nonblocking", rule_nonblocking),
+RULES = [("one-site", rule_one_site), ("spine-panics", rule_spine_panics), ("tree-index", rule_tree_index), ("poll", rule_poll), ("time-budget", rule_time_budget), ("nonblocking", rule_nonblocking),
          ("depth-units", rule_depth_units), ("legal-src", rule_legal_src)]
 # "legal" in "exactly one legal bestmove" rests on the legality filter
 RULES += engine.premise_rules("c01", ["filter", "probe"])
